@@ -239,6 +239,50 @@ func runC19(c *Ctx) {
 	checkDefaultPort(c)
 	checkTargetPlumbing(c)
 	checkTTLPlumbing(c)
+	checkParseTargetPort(c)
+}
+
+// checkParseTargetPort: every success return of parseTarget carries a port that was range-checked on that path.
+func checkParseTargetPort(c *Ctx) {
+	R := c.R
+	f := c.P.Func("traceroute.parseTarget")
+	if f == nil {
+		R.Fail("R19.3", "traceroute.parseTarget#anchor", 0, "", "anchor traceroute.parseTarget no longer resolves")
+		return
+	}
+	fn := core.FuncName(f)
+	rps, complete := core.ReturnPaths(c.P, f, 20000)
+	if !complete {
+		R.Fail("R19.3", fn+"#enumeration", f.Pos(), fn, "too many paths: undecided")
+		return
+	}
+	n := 0
+	seen := map[string]bool{}
+	for _, rp := range rps {
+		if !rp.Results[1].IsConst("nil") {
+			continue
+		}
+		n++
+		r0 := rp.Results[0]
+		key := fmt.Sprintf("%s#success-port@b%d", fn, rp.Ret.Block().Index)
+		ok := false
+		detail := r0.String()
+		if r0.Op == "call" && r0.Name == "netip.AddrPortFrom" && len(r0.Args) == 2 {
+			pt := r0.Args[1]
+			for pt.Op == "conv" {
+				pt = pt.Args[0]
+			}
+			b := atomBounds(rp.Atoms, pt.Key())
+			ok = b.loK && b.hiK && b.lo >= 1 && b.hi <= 65535
+			detail = fmt.Sprintf("port %s bounded to [%g,%g]", pt.String(), b.lo, b.hi)
+		}
+		if !ok && seen[key] {
+			continue
+		}
+		seen[key] = true
+		R.Check(ok, "R19.3", key, rp.Ret.Pos(), fn, "a successfully parsed target carries a port checked to lie in 1..65535", "a success return of parseTarget yields "+detail+" without a 1..65535 range check on that path: port 0 (or a wrapped port) is accepted instead of rejected")
+	}
+	R.Floor("R19.3:parseTarget-success-paths", n, 1)
 }
 
 func tableKey(fn string, op *core.Term) string {
